@@ -71,6 +71,8 @@ def make_stream(rng, big=False):
         off = sum(len(x) for x in msgs[:k])
         field = rng.choice([12, 14, 15, 4, 5, 6, 7])
         data[off + field] = rng.choice([0, 2, 3, 0x7F, 0xFF, (data[off + field] + 1) & 0xFF])
+        if rng.random() < 0.5 and len(msgs[k]) > 17:   # ... and the stream ends inside the payload of that very message
+            del data[off + rng.randint(16, len(msgs[k]) - 1):]
     return bytes(data)
 
 
